@@ -129,7 +129,9 @@ func (t *Table) evalEnds(e *gram.Expr, pos int) uint64 {
 		return 0
 	case gram.NT, gram.Sh:
 		return t.Ends[t.G.Body(e).ID][pos]
-	case gram.Memo:
+	case gram.Memo, gram.SupErr, gram.Single:
+		// SuppressError changes no result; Single replaces a one-child node by that child (same span): the END
+		// positions are the operand's in both cases
 		return t.Ends[e.Kids[0].ID][pos]
 	case gram.Any:
 		var r uint64
@@ -215,9 +217,11 @@ func (t *Table) evalTrees(e *gram.Expr, pos int) ([]Tree, bool) {
 	case gram.NT, gram.Sh:
 		id := t.G.Body(e).ID
 		return t.Trees[id][pos], t.Over[id][pos]
-	case gram.Memo:
+	case gram.Memo, gram.SupErr:
 		id := e.Kids[0].ID
 		return t.Trees[id][pos], t.Over[id][pos]
+	case gram.Single:
+		return nil, true // trees are rewritten by Single: only end positions are modelled
 	case gram.Any:
 		var sets [][]Tree
 		for _, k := range e.Kids {
